@@ -49,6 +49,10 @@ func (k *KeepAlive) sendKeepAlive() {
 		bytes, _ := ioutil.ReadAll(buffer)
 		bytes = FixProtocolSpecifier(bytes)
 		log.Debug.Printf("Keep alive %s <- %s", conn.RemoteAddr(), string(bytes))
-		conn.Write(bytes)
+		if hapConn, ok := conn.(*Connection); ok {
+			hapConn.WriteNotification(bytes)
+		} else {
+			conn.Write(bytes)
+		}
 	}
 }
